@@ -32,7 +32,12 @@ structure Op where
   slow : Bool         -- the leader answers after the client's timeout
   broadcast : Bool := false   -- BroadcastHWM with retries = 0: a single attempt, no forced-new connection
   retries : Nat := 0  -- the caller's `retries` argument
+  reset : Bool := false  -- the connection breaks (EOF / reset) after the leader received the command and
+                         -- before any answer: an error that is NOT a deadline error
 deriving DecidableEq, Repr
+
+/-- the attempt ends in an error instead of an answer -/
+def fails (op : Op) : Bool := op.slow || op.reset
 
 inductive Res where
   | ok (tag : Nat)    -- a response frame was read: the one answering request `tag`
@@ -50,7 +55,7 @@ def attempt (keepOnTimeout : Bool) (conn : List Nat) (op : Op) : Res × Option (
   match conn with
   | stale :: rest => (.ok stale, some (rest ++ [op.tag]))   -- an earlier answer is read; ours stays queued
   | [] =>
-    if op.slow then (.timeout, if keepOnTimeout then some [op.tag] else none)
+    if fails op then (.timeout, if keepOnTimeout && !op.reset then some [op.tag] else none)
     else (.ok op.tag, some [])
 
 def putBack (pool : List (List Nat)) : Option (List Nat) → List (List Nat)
@@ -62,10 +67,11 @@ connection, `false` = on a connection from the pool (new when the pool is empty)
 `effectiveRetries := max(1, maxRetries)` pooled attempts, then one forced-new attempt.
 `resendAfterTimeout = false` is the code: with `retries = 0` a request whose answer
 did not arrive in time is NOT sent again (the leader may be executing it);
-`true` is the behaviour before the `fix:` commit (kept for the witness). -/
+`true` is the behaviour before the `fix:` commit (kept for the witness). After an error
+that is not a deadline error (`reset`) the forced-new attempt is still made. -/
 def plan (resendAfterTimeout : Bool) (op : Op) : List Bool :=
   if op.broadcast then [false]
-  else if op.retries = 0 then (if resendAfterTimeout then [false, true] else [false])
+  else if op.retries = 0 then (if resendAfterTimeout || op.reset then [false, true] else [false])
   else List.replicate op.retries false ++ [true]
 
 /-- the connection an attempt uses, and what remains in the pool -/
